@@ -736,6 +736,27 @@ class Foreign(EngineBase):
                         V("C20.layout", ftags + ["fallback"], "%s fallback "
                           "-> %r, proc_info slots say %r" % (method, got,
                                                              exp))
+        if platform == "netbsd10" and method == "cmdline" and \
+                len(fired) == 1 and fired[0]["errno"] == errno.EINVAL and \
+                fired[0].get("then"):
+            want = "ZP" if fired[0]["then"] == "zombie" else "NSP"
+            if res["outcome"] != want:
+                V("C20.cause", ftags + ["netbsd_cmdline_einval", state_end],
+                  "cmdline: the args sysctl answered EINVAL and the pid is "
+                  "%s: expected %s, got %s" % (
+                      state_end, want, res["outcome"] if out[0] == "exc"
+                      else repr(out[1])))
+        if platform == "win32" and len(fired) == 2 and \
+                fired[0].get("winerror") == 299 and out[0] == "exc":
+            second = fired[1]
+            e = out[1]
+            if second["errno"] == errno.EINVAL and not (
+                    isinstance(e, OSError) and not isinstance(
+                        e, psutil.Error) and e.errno == errno.EINVAL):
+                V("C20.passthrough", ftags + ["after_partial_copy",
+                                              type(e).__name__],
+                  "%s: ERROR_PARTIAL_COPY, then the retry failed with an "
+                  "unrelated error: %r instead of that error" % (method, e))
         # the same object afterwards: while the PID is still listed (as a
         # zombie) nothing may claim that it is gone
         if state_end == "zombie" and res["outcome"] != "NSP" and not any(
@@ -1005,6 +1026,37 @@ class Foreign(EngineBase):
                                 self._absorb(u, plan, r, (
                                     m, "probe_fault", kind, then,
                                     errno.errorcode[e2]))
+                # platform special cases written in the sources
+                if pidkind == "ordinary" and state == "live" and not cached:
+                    extra = []
+                    for (kk, kind, arg) in acc:
+                        if platform == "netbsd10" and m == "cmdline" and \
+                                kind == "native:proc_cmdline":
+                            # NetBSD answers EINVAL for a zombie's argv
+                            for then in ("zombie", "absent"):
+                                extra.append([{"k": kk, "errno": errno.EINVAL,
+                                               "then": then}])
+                        if platform == "win32" and m in (
+                                "cmdline", "environ", "cwd") and \
+                                kind.startswith("native:proc_"):
+                            # ERROR_PARTIAL_COPY is retried; what the retry
+                            # meets decides
+                            extra.append([
+                                {"k": kk, "errno": errno.EIO,
+                                 "winerror": 299},
+                                {"k": kk + 1, "errno": errno.ESRCH,
+                                 "then": "absent"}])
+                            extra.append([
+                                {"k": kk, "errno": errno.EIO,
+                                 "winerror": 299},
+                                {"k": kk + 1, "errno": errno.EINVAL,
+                                 "winerror": 87}])
+                    for fl in extra:
+                        plan = dict(base, faults=fl)
+                        r = W.execute_forked(plan)
+                        u["evals"] += 1
+                        self._absorb(u, plan, r, (m, "special", str(
+                            [(f_["errno"], f_.get("then")) for f_ in fl])))
                 # sampled double faults (thorough)
                 if tier == "thorough" and len(acc) >= 2:
                     for _ in range(2):
